@@ -443,6 +443,9 @@ func genOne(c *hx.Ctx, v variantSpec, i int) (Scen, bool) {
 					if hn.Height-fp.Height < 2 {
 						continue
 					}
+					if v.field == "extend" && hn.Height-fp.Height < 4 {
+						continue
+					}
 				}
 				cands = append(cands, pair{vn.Idx, hn.Idx})
 			}
@@ -492,6 +495,19 @@ func genScens(c *hx.Ctx) []Scen {
 			}
 		}
 		if s.HTip < len(t.Nodes) && t.Nodes[s.HTip].ChainValid() && mgrsim.Heavier(t.Nodes[s.HTip], t.Nodes[s.VTip]) {
+			out = append(out, s)
+		}
+	}
+	// hit-and-run: a bad batch that is judged only after its sender has hung up (see hitrun.go)
+	for i, regime := range []int{1, 4, 1} {
+		if i == 2 && !c.Thorough {
+			break
+		}
+		s := Scen{Seed: uint64(515100 + i), Regime: regime, Opts: chaingen.GenOpts{Blocks: 8, Branchiness: 0, TxPerBlock: 1}, Attack: "hit-and-run", VTip: 0, HTip: 8, Batch: 3}
+		if i == 2 {
+			s.Opts.Blocks, s.HTip, s.VTip = 7, 7, 1
+		}
+		if t := s.safeTree(); t != nil && len(t.Nodes) > s.HTip {
 			out = append(out, s)
 		}
 	}
